@@ -20,6 +20,7 @@ def run_check(tier, seed, replay=None):
             if r["kind"] == "violation" and r["label"].startswith("generated"):
                 c.violation(r["sig"], r["why"], {"kind": "params", "vec": r["vec"], "hex": r["hex"]})
         return c.finish(rule="replay of one saved case")
+    mc_predict(c, wd, "quick")
     consts = {"LimitMax": 255, "Emit": "FALSE", "Wide": "FALSE" if q else "TRUE"}
     r = mc("MC_Params", wd, constants=consts, invariants=["FitsWidths", "ReadsBack", "InRange"], timeout=6000)
     c.add_model(r, "boundary-valued parameter vectors of the estimator's range: header fits and reads back")
